@@ -167,7 +167,8 @@ def enum_infer(ctx: Ctx):
 # (c) command line routes
 # ---------------------------------------------------------------------------
 
-_cli_names = st.lists(st.one_of(st.sampled_from(gen.NAME_POOL), gen.random_name(max_size=10)),
+_cli_names = st.lists(st.one_of(st.sampled_from(gen.NAME_POOL), gen.random_name(max_size=10),
+                                 st.sampled_from(["HG002#1#chr1", "HG002#2#chr1", "s#c", "chr#"])),
                       min_size=1, max_size=5, unique=True)
 
 
@@ -260,7 +261,10 @@ def cooler_cases(draw):
     bt = draw(gen.bin_tables(max_chroms=4, max_bins=5, max_width=8))
     # history: the same URI (root or a group) first holds a collection over ANOTHER table and is then re-created in append mode
     prior = draw(st.one_of(st.none(), gen.bin_tables(max_chroms=3, max_bins=5, max_width=8)))
-    return {"part": "cooler", "bt": bt, "prior": prior, "group": draw(st.sampled_from(["/", "/", "/g"]))}
+    return {"part": "cooler", "bt": bt, "prior": prior, "group": draw(st.sampled_from(["/", "/", "/g"])),
+            # user metadata whose keys happen to be names of standard fields: what is REPORTED stays what the table says
+            "metadata": draw(st.sampled_from([None, None, {"bin-size": 5000, "bin-type": "variable", "nbins": 123456, "nchroms": 99},
+                                              {"bin-size": None, "bin-type": "fixed", "note": "x"}]))}
 
 
 def check_cooler(case, ctx: Ctx):
@@ -271,17 +275,24 @@ def check_cooler(case, ctx: Ctx):
     bt = case["bt"]
     path = ctx.tmp(".cool")
     uri = path if case.get("group", "/") == "/" else path + "::" + case["group"]
+    mkw = {"metadata": case["metadata"]} if case.get("metadata") else {}
     try:
         if case.get("prior") is not None:
             call("create_cooler (earlier collection)", create_from_model, uri, case["prior"], [], h5opts={"compression": None})
             old = cooler.Cooler(uri)
             check(old.binsize is None or model.tiles(case["prior"], int(old.binsize)), "earlier collection reports a wrong bin size")
-            call("create_cooler (re-creation, append mode)", create_from_model, uri, bt, [], h5opts={"compression": None}, mode="a")
+            call("create_cooler (re-creation, append mode)", create_from_model, uri, bt, [], h5opts={"compression": None}, mode="a", **mkw)
         else:
-            call("create_cooler", create_from_model, uri, bt, [], h5opts={"compression": None})
+            call("create_cooler", create_from_model, uri, bt, [], h5opts={"compression": None}, **mkw)
         clr = cooler.Cooler(uri)
         b = clr.binsize
         info = clr.info
+        # the command-line metadata query reports the same fields
+        for fld, want_txt in (("bin-size", str(model.true_binsize(bt))), ("bin-type", "fixed" if model.true_binsize(bt) is not None else "variable"),
+                              ("nbins", str(gen.n_bins(bt))), ("nchroms", str(len(bt["names"])))):
+            rc, out_txt, exc = run_cli(["info", "-f", fld, uri])
+            check(rc == 0 and exc is None, f"cooler info -f {fld} failed: exit {rc} {exc!r}")
+            check(out_txt.strip() == want_txt, lambda: f"cooler info -f {fld} prints {out_txt.strip()!r}, the stored table says {want_txt!r} (user metadata: {case.get('metadata')})")
         if b is not None:
             check(info["bin-type"] == "fixed", f"bin-size {b} but bin-type {info['bin-type']}")
             check(model.tiles(bt, int(b)),
